@@ -81,17 +81,18 @@ class Store:
     def put(self, ident, seq, mtime_mode="next"):
         vs = self.entries.setdefault(ident, [])
         cur = vs[-1] if vs and vs[-1]["died"] is None else None
+        # ticks are whole microseconds (exact integers: no two different ticks can round to one mtime)
         if mtime_mode == "next" or cur is None:
-            self.tick += 1
+            self.tick += 1_000_000
             tick = self.tick
         elif mtime_mode == "same":
             tick = cur["tick"]
         elif mtime_mode == "tiny":        # saved again 100 microseconds later
-            tick = cur["tick"] + 0.0001
+            tick = cur["tick"] + 100
         elif mtime_mode == "tiny_back":   # replaced by a file that is 100 microseconds older
-            tick = cur["tick"] - 0.0001
+            tick = cur["tick"] - 100
         else:  # back
-            tick = cur["tick"] - 1
+            tick = cur["tick"] - 1_000_000
         if cur is not None:
             cur["died"] = seq
         v = {"k": len(vs), "tick": tick, "born": seq, "died": None, "text": self.text(ident, len(vs))}
@@ -483,7 +484,7 @@ class C23:
         realm, ns, name = ident
         if realm == "fs":
             w.plan.enabled = False
-            w.fs.write("root/" + self._fs_rel(sc, name), v["text"], v["tick"])
+            w.fs.write("root/" + self._fs_rel(sc, name), v["text"], v["tick"] / 1e6)
             w.plan.enabled = True
         elif realm == "dict":
             dict.__setitem__(w.dict_realm, name, v["text"])
